@@ -516,7 +516,7 @@ def run_stages(rep, rng, thorough, r_stage=True):
         stage_rmake(rep, rng, 1200 if thorough else 220)
     n = 120 if thorough else 24
     dis, found = stage_lines(rep, rng, n)
-    if dis and not found:
+    if dis and not rep.n_with_input:
         # the tie broke and the theorem-level stage saw no failing project: widened search
         _, found = stage_lines(rep, rng, n * 10)
     return dis, found
